@@ -248,7 +248,7 @@ def install():
     core.attach(Textgrid, "save", "decode.file", _save_pre, _save_post)
 
 
-def agreement(tg, data, blanks, thr):
+def agreement(tg, data, blanks, thr, held=None):
     """the four formats written from one textgrid decode to identical content"""
     from praatio.data_classes.textgrid import _tgToDictionary
     from praatio.utilities import textgrid_io
@@ -256,6 +256,7 @@ def agreement(tg, data, blanks, thr):
     if domain_ok(data, "json", blanks, None, None, thr):
         return
     docs = {}
+    held = held or snap.tg_snap(tg)  # (the textgrid as it was built, when the caller has written documents from it before)
     for fmt in TC.FORMATS:
         try:
             with core.paused():
@@ -265,6 +266,13 @@ def agreement(tg, data, blanks, thr):
             REC.skip("agreement", "a-format-failed-(judged-by-decode)")
             return
     case = {"call": "agreement", "tg": snap_like(data), "blanks": blanks, "thr": thr}
+    now = snap.tg_snap(tg)
+    if now != held:
+        # "the four formats written from ONE Textgrid": writing a document must not change the textgrid it is written from, or the
+        # next document says something else than the first
+        REC.violation(PROP, "agreement", "four-formats", case, "writing the four documents changed the textgrid they were written from: %r -> %r" % (
+            [t["entries"][:4] for t in held["tiers"]], [t["entries"][:4] for t in now["tiers"]]), ("agree-frame", blanks), {"format": "all", "blanks": blanks, "source_changed": True})
+        return
     ref = docs["textgrid_json"]
     why = None
     for fmt in TC.FORMATS:
@@ -300,6 +308,7 @@ def workload(tier, rng, shard, nshards, work):
             tiny = i % 4 == 3
             data, _cl = tggen.gen_textgrid(rng, keywords=(i % 2 == 0), min_gap=0 if tiny else 2e-8, scale_class="tiny" if tiny else None)
             tg = TC.build_tg(data)
+            built = snap.tg_snap(tg)
             first = min([t["entries"][0][0] for t in data["tiers"] if t["entries"]] + [data["max"]])
             last = max([t["entries"][-1][-2] for t in data["tiers"] if t["entries"]] + [data["min"]])
             for fmt in TC.FORMATS:
@@ -326,8 +335,8 @@ def workload(tier, rng, shard, nshards, work):
                                 call(tg.save, fn if k % 2 == 0 else fn + "_new", fmt, True, None, cut, thr, ("silence", "warning")[(k // 7) % 2])
                     else:
                         call(textgrid_io.getTextgridAsStr, _tgToDictionary(tg), fmt, blanks, minT, maxT, thr)
-            agreement(tg, data, True, None if tiny else 1e-8)
-            agreement(tg, data, False, 1e-8)
+            agreement(tg, data, True, None if tiny else 1e-8, built)
+            agreement(tg, data, False, 1e-8, built)
             if i % 4 == 0:
                 # sub-threshold slivers (C04's subject): here only the structure of the written partition is judged
                 segs = [(rng.choice([0.2, 0.05, 1.0]), rng.choice(["a", "b", None])) for _ in range(rng.randrange(1, 4))]
